@@ -43,8 +43,9 @@ their own; signatures = the signature the same failure has with the library's da
                        names of one character and of that character repeated - 1, 11, 111, 2, 22 in lexicographic and 1, 2, 11,
                        12, 22 in natural order - where a name of length 1 compared element-wise with a longer name broadcasts;
                        these two families also with the library's datatypes (StringArray / StringEncoding) in groupby
-  contracts            all of the above (no file input: files are read into the library's datatypes); genomes of 2..4 contigs
-                       (thorough 1..5), plain / sort_names / with_ignored_added; many contigs: genomes 1 .. 13 (thorough: + 24)
+  contracts            iter_chromosomes, multistream, left_join, groupby (the Genome API and forbes / jaccard are documented for
+                       Interval / BedGraph input and are not given other tables); genomes of 2..4 contigs (thorough 1..5), plain /
+                       sort_names / with_ignored_added; many contigs: genomes 1 .. 13 (thorough: + 24)
 
 Entries are identified by a unique id (start == uid, stop == uid+1, bedgraph value == 2**uid), so any entry that is
 lost, duplicated or handed to another contig is visible in every observer.
@@ -381,10 +382,13 @@ def eval_iter_chromosomes(col, case, tmp=None):
     consumer = case["consumer"]
     tag = ":underscore-contig-included" if case["gcfg"] == "inc_" else ""
 
+    kcol = case.get("col")
+
     def go():
         ctx = genome.get_genome_context()
-        data = make_table(entries, "interval") if case["input"] == "table" else make_stream(entries, case["chunks"])
-        it = ctx.iter_chromosomes(data, Interval)
+        data = (make_table(entries, "interval", kcol) if case["input"] == "table" else
+                make_stream(entries, case["chunks"], "interval", kcol))
+        it = ctx.iter_chromosomes(data, table_class("interval", kcol) if kcol else Interval)
         problems = []
         if consumer == "exhaust":
             tables = list(it)
@@ -399,7 +403,7 @@ def eval_iter_chromosomes(col, case, tmp=None):
 
     col.case(case, nontrivial=bool(groups), contract="iter_chromosomes")
     return judge(col, "iter_chromosomes:%s" % consumer, case, G, ignored, groups, capture(go), tag,
-                 suffix=fam_suffix(case.get("fam")))
+                 suffix=case_suffix(case))
 
 
 # ----------------------------------------------------------------------------------------------- contract B
@@ -432,7 +436,7 @@ def eval_genome_api(col, case, tmp):
         elif inp == "table_as_stream":
             obj = genome.get_intervals(make_table(entries, "interval")).as_stream()
         else:
-            data = make_stream(entries, case["chunks"], kind)
+            data = make_stream(entries, case["chunks"], kind, case.get("col"))
             obj = genome.get_intervals(data) if kind == "interval" else genome.get_track(data)
         if observer == "intervals.compute":
             res = obj.compute().get_data()
@@ -455,7 +459,7 @@ def eval_genome_api(col, case, tmp):
     out = capture(go)
     # (track.sum carries the set of entries only; for valid input the expected concatenation is ascending in uid)
     base = "genome_api.%s:%s:%s" % (observer, inp, consumer)
-    return judge(col, base, case, G, ignored, groups, out, tag, flat=flat, suffix=fam_suffix(case.get("fam")))
+    return judge(col, base, case, G, ignored, groups, out, tag, flat=flat, suffix=case_suffix(case))
 
 
 # ----------------------------------------------------------------------------------------------- contract C
@@ -476,7 +480,8 @@ def eval_multistream(col, case, tmp=None):
             sizes = SequenceSizes(G)
         else:
             sizes = dict(G)
-        data = make_table(entries, "interval") if case["input"] == "table" else make_stream(entries, case["chunks"])
+        data = (make_table(entries, "interval", case.get("col")) if case["input"] == "table" else
+                make_stream(entries, case["chunks"], "interval", case.get("col")))
         ms = MultiStream(sizes, a=data, v={g: i for i, (g, _) in enumerate(G)})
         problems = []
         if consumer == "exhaust":
@@ -490,7 +495,7 @@ def eval_multistream(col, case, tmp=None):
         return ("done", out, problems)
 
     col.case(case, nontrivial=bool(groups), contract="multistream")
-    return judge(col, "multistream:%s" % consumer, case, G, set(), groups, capture(go), suffix=fam_suffix(case.get("fam")))
+    return judge(col, "multistream:%s" % consumer, case, G, set(), groups, capture(go), suffix=case_suffix(case))
 
 
 # ----------------------------------------------------------------------------------------------- contract D
@@ -510,7 +515,8 @@ def eval_similarity(col, case, tmp=None):
     n = case["n"]
     G = [(fam_names(case.get("fam"))[p], contig_size(p)) for p in range(n)]
     Gn = [g for g, _ in G]
-    suffix = fam_suffix(case.get("fam"))
+    suffix = case_suffix(case)
+    kcol = case.get("col")
     ga = [tuple(g) for g in case["a_groups"]]
     gb = [tuple(g) for g in case["b_groups"]]
     ea, eb = sim_entries(ga, "a"), sim_entries(gb, "b")
@@ -518,8 +524,8 @@ def eval_similarity(col, case, tmp=None):
 
     def go():
         sizes = ChromosomeSize(Gn, [s for _, s in G]) if case["sizes"] == "chromsize" else dict(G)
-        a = make_table(ea, "interval") if case["a_input"] == "table" else make_stream(ea, case["a_chunks"])
-        b = make_table(eb, "interval") if case["b_input"] == "table" else make_stream(eb, case["b_chunks"])
+        a = make_table(ea, "interval", kcol) if case["a_input"] == "table" else make_stream(ea, case["a_chunks"], "interval", kcol)
+        b = make_table(eb, "interval", kcol) if case["b_input"] == "table" else make_stream(eb, case["b_chunks"], "interval", kcol)
         return ("done", float((forbes if func == "forbes" else jaccard)(sizes, a, b)))
 
     col.case(case, nontrivial=bool(ga) and bool(gb), contract="similarity." + func)
@@ -561,9 +567,9 @@ def eval_left_join(col, case, tmp=None):
         if case["input"] == "pure":
             right = iter([(nm, [u for x, u, _ in entries if x == nm]) for nm, _ in groups])
         elif case["input"] == "table":
-            right = groupby(make_table(entries, "interval"), "chromosome")
+            right = groupby(make_table(entries, "interval", case.get("col")), "chromosome")
         else:
-            right = groupby(make_stream(entries, case["chunks"]), "chromosome")
+            right = groupby(make_stream(entries, case["chunks"], "interval", case.get("col")), "chromosome")
         out = []
         for j, (name, size, data) in enumerate(left_join(list(G), right)):
             if j >= len(G) or (name, size) != G[j]:
@@ -578,7 +584,7 @@ def eval_left_join(col, case, tmp=None):
         return ("done", out, problems)
 
     col.case(case, nontrivial=bool(groups), contract="left_join")
-    return judge(col, "left_join:exhaust", case, G, set(), groups, capture(go), suffix=fam_suffix(case.get("fam")))
+    return judge(col, "left_join:exhaust", case, G, set(), groups, capture(go), suffix=case_suffix(case))
 
 
 # ----------------------------------------------------------------------------------------------- contract F
@@ -609,13 +615,16 @@ def eval_groupby(col, case, tmp=None):
             return replace(tbl, chromosome=EncodedArray(codes, enc))
         return tbl
 
+    kcol = RAGGED if case["keys"] == "ragged" else None  # keys: "str" StringArray, "enc" StringEncoding, "ragged" EncodedRaggedArray
+
     def go():
         problems = []
         if case["input"] == "table":
-            data = conv(make_table(entries, "interval"), entries)
+            data = conv(make_table(entries, "interval", kcol), entries)
         else:
             parts = split_chunks(entries, case["chunks"])
-            data = NpDataclassStream(iter([conv(make_table(p, "interval"), p) for p in parts]), dataclass=Interval)
+            data = NpDataclassStream(iter([conv(make_table(p, "interval", kcol), p) for p in parts]),
+                                     dataclass=table_class("interval", kcol) if kcol else Interval)
         out = []
         for key, tbl in groupby(data, "chromosome"):
             rows = rows_of(tbl)
@@ -1153,6 +1162,131 @@ def _cases_many(fam, gcfg, n, thorough):
             yield {"contract": "left_join", "fam": fam, "n": n, "groups": groups, "chunks": [N], "input": "pure"}
 
 
+# ----------------------------------------------------------------------------------------------- extended scope: ragged key columns
+REPEAT_FAMS = ("repeat", "ensembl")  # names of one character and of that character repeated
+RAGGED_FAMS = ("repeat", "ensembl", None, "nested", "scaffold", "natural")  # None: the original alphabet chr1, chr10, chr2 ...
+
+
+def ragged_fams(thorough):
+    return RAGGED_FAMS if thorough else RAGGED_FAMS[:5]
+
+
+def ragged_genomes(fam, thorough):
+    """(gcfg, contigs, group sequences complete up to this length [None: complete; longer ones: those the genome accepts])"""
+    rep_ = fam in REPEAT_FAMS
+    if thorough:
+        out = [("plain", 1, None), ("plain", 2, None), ("plain", 3, None), ("plain", 4, 3 if rep_ else 2), ("sorted", 3, None),
+               ("ignM", 3, None)]
+        if rep_:
+            out += [("plain", 5, 2), ("sorted", 4, 2), ("ignM", 2, None)]
+        return out
+    out = [("plain", 3, None), ("plain", 2, None)]
+    if rep_:
+        out += [("plain", 4, 2), ("sorted", 3, 2), ("ignM", 3, 2)]
+    return out
+
+
+def _interleave(gens):
+    gens = list(gens)
+    while gens:
+        for g in list(gens):
+            c = next(g, None)
+            if c is None:
+                gens.remove(g)
+            else:
+                yield c
+
+
+def _ragged_streams(fam, gcfg, n, maxlen, thorough):
+    """one genome of one family: iter_chromosomes / multistream / left_join over ragged contig columns"""
+    Gn, ignored, seqs = fam_sequences(fam, gcfg, n, maxlen)
+    rep_ = fam in REPEAT_FAMS
+    for seq in seqs:
+        for groups, chs, zip_too in name_plans(seq, Gn, ignored, rich=thorough and rep_ and n <= 3 and gcfg == "plain"):
+            N = sum(k for _, k in groups)
+            for ci, chunks in enumerate(chs):
+                for consumer in ("exhaust", "zip") if (zip_too and ci <= (1 if thorough else 0)) else ("exhaust",):
+                    yield {"contract": "iter_chromosomes", "fam": fam, "col": RAGGED, "gcfg": gcfg, "n": n, "groups": groups,
+                           "chunks": chunks, "input": "stream", "consumer": consumer}
+                    if gcfg == "plain":
+                        yield {"contract": "multistream", "fam": fam, "col": RAGGED, "n": n, "groups": groups, "chunks": chunks,
+                               "input": "stream", "sizes": ("dict", "chromsize", "seqsizes")[ci % 3], "consumer": consumer}
+                if gcfg == "plain" and (thorough or rep_ or ci == 0):
+                    yield {"contract": "left_join", "fam": fam, "col": RAGGED, "n": n, "groups": groups, "chunks": chunks,
+                           "input": "stream"}
+            if N > 0 and (thorough or len(groups) <= 2):
+                yield {"contract": "iter_chromosomes", "fam": fam, "col": RAGGED, "gcfg": gcfg, "n": n, "groups": groups,
+                       "chunks": [N], "input": "table", "consumer": "exhaust"}
+                if gcfg == "plain":
+                    yield {"contract": "multistream", "fam": fam, "col": RAGGED, "n": n, "groups": groups, "chunks": [N],
+                           "input": "table", "sizes": "dict", "consumer": "exhaust"}
+                    yield {"contract": "left_join", "fam": fam, "col": RAGGED, "n": n, "groups": groups, "chunks": [N],
+                           "input": "table"}
+
+
+def cases_ragged_streams(thorough):
+    """genome by genome (the first genome of every family, then the second ...), the families of one round interleaved"""
+    per_fam = [[(fam,) + g for g in ragged_genomes(fam, thorough)] for fam in ragged_fams(thorough)]
+    for row in itertools.zip_longest(*per_fam):
+        yield from _interleave(_ragged_streams(*item, thorough) for item in row if item is not None)
+
+
+def cases_ragged_groupby(thorough):
+    """sequences of <= 2 of the 6 names of a family (original alphabet: its 5) and of 3 of the first 4 (thorough: 3 of all and 4
+    of the first 4); all-ones with {table, one chunk, singletons, every 2-split}, one doubled group with {one chunk, every 2-split
+    (<= 2 groups)}.  Keys: ragged; the repeated-character families also StringArray and (all-ones) StringEncoding"""
+    for maxlen in ((1, 2, 3, 4) if thorough else (1, 2, 3)):
+        for fam in ragged_fams(thorough) + (("fixedw", "long25") if thorough else ()):
+            pool = gb_names(fam) if maxlen <= (3 if thorough else 2) else gb_names(fam)[:4]
+            for seq in itertools.permutations(pool, maxlen):
+                for gi, groups in enumerate(group_variants(list(seq), maxlen <= 2)):
+                    N = sum(k for _, k in groups)
+                    ones = N == len(groups)
+                    if not ones and N > len(groups) + 1:
+                        continue
+                    for keys in ("ragged", "str", "enc") if fam in REPEAT_FAMS else ("ragged",):
+                        if keys == "enc":
+                            chs = dedupe([[N], [1] * N]) if ones else []
+                        elif ones:
+                            chs = dedupe([[N], [1] * N] + [[i, N - i] for i in range(1, N)])
+                        else:
+                            chs = dedupe([[N]] + ([[i, N - i] for i in range(1, N)] if maxlen <= 2 else []))
+                        case = {"contract": "groupby", "groups": groups, "keys": keys}
+                        if fam:
+                            case["fam"] = fam
+                        if ones:
+                            yield dict(case, chunks=[N], input="table")
+                        for chunks in chs:
+                            yield dict(case, chunks=chunks, input="stream")
+
+
+def cases_ragged_many(thorough):
+    """genomes 1 .. n (bare numeric names, natural order): singles, ordered pairs, boundary triples, full genome and rotations"""
+    fam = "manynum"
+    for n in ((13, 24) if thorough else (13,)):
+        Gn = fam_names(fam)[:n]
+        label = Gn + [fam_unknown(fam)]
+        for pseq in many_sequences(n, thorough):
+            seq = [label[p] for p in pseq][:14]  # unique ids must stay below the smallest contig size
+            groups = [[nm, 1] for nm in seq]
+            N = len(groups)
+            valid = model(Gn, set(), seq)[0] == "ok"
+            for ci, chunks in enumerate(dedupe([[N], [1] * N]) if (valid and (thorough or N > 3)) else [[N]]):
+                yield {"contract": "iter_chromosomes", "fam": fam, "col": RAGGED, "gcfg": "plain", "n": n, "groups": groups,
+                       "chunks": chunks, "input": "stream", "consumer": "exhaust"}
+                yield {"contract": "multistream", "fam": fam, "col": RAGGED, "n": n, "groups": groups, "chunks": chunks,
+                       "input": "stream", "sizes": ("dict", "chromsize", "seqsizes")[(ci + sum(pseq)) % 3], "consumer": "exhaust"}
+                if thorough or len(pseq) != 2:
+                    yield {"contract": "left_join", "fam": fam, "col": RAGGED, "n": n, "groups": groups, "chunks": chunks,
+                           "input": "stream"}
+
+
+def ragged_cases(tier):
+    """round-robin over the generators of the ragged-key-column scope"""
+    thorough = tier != "quick"
+    return _interleave([cases_ragged_groupby(thorough), cases_ragged_streams(thorough), cases_ragged_many(thorough)])
+
+
 def extended_cases(tier):
     """round-robin over the generators of the extended scope (name families, many contigs)"""
     thorough = tier != "quick"
@@ -1236,7 +1370,9 @@ def run(tier="quick", seed=0):
                     "samples with 5 contigs; extended scope (first): 5 name families (long names with 8/9/25 characters in common, "
                     "names that are prefixes of each other, natural-order names) x genomes of 1..5 contigs x group sequences x "
                     "{one chunk, singletons, 2-splits}, and genomes of 12..40 contigs x singles / ordered pairs / boundary triples / "
-                    "rotations. distinct = distinct (contract, genome, group sequence, sizes, chunking, consumer/observer); "
+                    "rotations; then iter_chromosomes / multistream / left_join / groupby over RAGGED contig columns (user dataclass with a "
+                    "`str` field) x 5-6 name alphabets incl. "
+                    "names of one character and of that character repeated (1, 11, 111; 1, 2, 11, 12, 22). distinct = distinct (contract, genome, group sequence, sizes, chunking, consumer/observer); "
                     "non-trivial = at least one data group" % (6 if thorough else 4),
                     budget_s=55 if not thorough else 560)
     col.bounds = {"contigs": "1..4 exhaustive (genome API and similarity: 1..%d), 5 sampled" % (4 if thorough else 3),
@@ -1255,7 +1391,16 @@ def run(tier="quick", seed=0):
                   "extended_name_family_contigs": "2..4 (4: two families, sequences of <= 2 groups + accepted ones)" if not thorough
                   else "1..5 (4: sequences of <= 3 groups + accepted ones; 5: <= 2 groups + accepted ones)",
                   "extended_many_contigs": [13] if not thorough else [12, 13, 16, 24, 40],
-                  "extended_budget_s": 10 if not thorough else 60}
+                  "extended_budget_s": 10 if not thorough else 60,
+                  "ragged_key_columns": {"storage": "user bnpdataclass with `chromosome: str` (EncodedRaggedArray) in place of Interval / "
+                                         "BedGraph (StringArray); every chunk built from its own entries", "contracts": "iter_chromosomes, multistream, left_join, groupby "
+                                         "(Genome API and forbes / jaccard are documented for Interval / BedGraph input: not evaluated)",
+                                         "name_alphabets": {str(f): fam_names(f)[:5] + [fam_unknown(f), fam_ign(f)] for f in ragged_fams(thorough)},
+                                         "contigs": "2..3 (repeated-character names: ..4, sort_names / with_ignored_added at 3)"
+                                         if not thorough else "1..4 (repeated-character names: ..5), sort_names / with_ignored_added at 3",
+                                         "many_contigs": [13] if not thorough else [13, 24],
+                                         "groupby_keys": "EncodedRaggedArray; repeated-character names also StringArray / StringEncoding",
+                                         "budget_s": 11 if not thorough else 70}}
     with TmpDir() as tmp:
         stop = False
         for case in WITNESSES:
@@ -1271,6 +1416,17 @@ def run(tier="quick", seed=0):
                 break
         col.bounds["extended_scope_evaluations"] = col.evaluations - len(WITNESSES)
         col.bounds["extended_scope_complete"] = ext_done
+        # ragged key columns, under a budget of their own as well
+        n_ext, t_rag, rag_budget, rag_done = col.evaluations, time.time(), (11 if not thorough else 70), True
+        for case in ragged_cases(tier):
+            EVAL[case["contract"]](col, case, tmp)
+            if col.evaluations % 32 == 0 and time.time() - t_rag > rag_budget:
+                rag_done = False
+                col.exhaustive = False
+                break
+        col.bounds["ragged_scope_evaluations"] = col.evaluations - n_ext
+        col.bounds["ragged_scope_complete"] = rag_done
+        col.bounds["ragged_scope_wall_s"] = round(time.time() - t_rag, 1)
         col.budget_s += time.time() - t_ext
         for case in enumerate_cases(tier):
             EVAL[case["contract"]](col, case, tmp)
